@@ -137,6 +137,14 @@ Fixpoint rstrip0 (bs : list Z) : list Z :=
   | b :: tl => let r := rstrip0 tl in if (b =? 0) && match r with [] => true | _ => false end then [] else b :: r
   end.
 
+(* parts (offset, size) listed in memory order: each starts at or after the end of the previous
+   one, on a slot boundary; returns the end of the last *)
+Fixpoint chain_ok (start : Z) (parts : list (Z * Z)) : option Z :=
+  match parts with
+  | [] => Some start
+  | (o, sz) :: tl => if (start <=? o) && (o mod 8 =? 0) then chain_ok (o + sz) tl else None
+  end.
+
 Fixpoint dec (t : ty) (m : mem) (off : Z) {struct t} : option (val * Z) :=
   match t with
   | TScalar k =>
@@ -182,13 +190,16 @@ Fixpoint dec (t : ty) (m : mem) (off : Z) {struct t} : option (val * Z) :=
                          do r <- go tl (so + slot (snd vs)) k dnext;
                          Some (fst vs :: fst r, snd r)
                        else
-                         (* the 2nd, 3rd.. dynamic fields have their offset stored in the table *)
-                         do _ <- guard ((k =? 0) || (rd64 m (off + 8 + stat_len + 8 * (k - 1)) =? dnext));
-                         do vs <- dec f m (off + dnext);
-                         do r <- go tl so (k + 1) (dnext + slot (snd vs));
+                         (* the 2nd, 3rd.. dynamic fields have their offset stored in the table: the stored
+                            offset is authoritative; parts must be slot aligned, in order and disjoint
+                            (a copy may leave slack behind a part) *)
+                         let o := if k =? 0 then dnext else rd64 m (off + 8 + stat_len + 8 * (k - 1)) in
+                         do _ <- guard ((dnext <=? o) && (o mod 8 =? 0));
+                         do vs <- dec f m (off + o);
+                         do r <- go tl so (k + 1) (o + slot (snd vs));
                          Some (fst vs :: fst r, snd r)
                    end) fs 8 0 hdr;
-        do _ <- guard (snd r =? total);
+        do _ <- guard ((snd r <=? total) && (total mod 8 =? 0));
         Some (VStruct (fst r), total)
   | TArray item shape order =>
       let st := is_static item in
@@ -215,12 +226,32 @@ Fixpoint dec (t : ty) (m : mem) (off : Z) {struct t} : option (val * Z) :=
         do _ <- guard ((hdr + 8 * n <=? total) && in_rangeb m off total);
         (* item idx is found through the table entry at strides-position *)
         do ivs <- seqopt (map (fun idx => dec item m (off + rd64 m (off + hdr + dot idx strides))) idxs);
-        (* the table lists, in memory order, the prefix sums of the (slot-rounded) item sizes *)
+        (* the table lists the items in memory order: slot aligned, increasing, disjoint, inside the object *)
         let sizes_mem := map (fun p => slot (snd (nth (Z.to_nat (logical_of_mem sh order p)) ivs (VNull, 0)))) (mem_positions sh) in
-        do _ <- guard (list_eqbZ (rd_words m (off + hdr) n) (offsets_from (hdr + 8 * n) sizes_mem));
-        do _ <- guard (total =? slot (hdr + 8 * n + sumz sizes_mem));
+        do fin <- chain_ok (hdr + 8 * n) (combine (rd_words m (off + hdr) n) sizes_mem);
+        do _ <- guard ((fin <=? total) && (total mod 8 =? 0));
         Some (VArr sh (map fst ivs), total)
-  | TRef _ | TUnion _ => None   (* references need the heap: see Heap.v *)
+  | TRef target =>
+      (* an 8-byte slot: offset of the target relative to the slot itself; one reserved null value *)
+      do _ <- guard (in_rangeb m off 8);
+      let rel := rd64 m off in
+      if rel =? NULLVALUE then Some (VNull, 8)
+      else do vs <- dec target m (off + rel); Some (VRef (fst vs), 8)
+  | TUnion members =>
+      (* two slots: relative offset and member index (-1 with the null offset = nothing) *)
+      do _ <- guard (in_rangeb m off 16);
+      let rel := rd64 m off in
+      let tid := rd64 m (off + 8) in
+      if rel =? NULLVALUE then (if tid =? -1 then Some (VNull, 16) else None)
+      else
+        do _ <- guard (0 <=? tid);
+        do vs <- (fix pick (ms : list ty) (k : nat) : option (val * Z) :=
+                    match ms, k with
+                    | mt :: _, O => dec mt m (off + rel)
+                    | _ :: tl, S k' => pick tl k'
+                    | [], _ => None
+                    end) members (Z.to_nat tid);
+        Some (VMember (Z.to_nat tid) (fst vs), 16)
   end.
 
 (* decode an object known to start at [off] and compare with an expected value *)
